@@ -241,6 +241,22 @@ Fixpoint first_code (l : list (Z * bool)) : Z :=
   | (c, b) :: l' => if b then first_code l' else c
   end.
 
+(** all failing clauses of a list of (code, holds) pairs *)
+Fixpoint all_codes (l : list (Z * bool)) : list Z :=
+  match l with
+  | [] => []
+  | (c, b) :: l' => if b then all_codes l' else c :: all_codes l'
+  end.
+
+(** From the failing clauses of all runs (run index, code), report the first one that is not in the
+    list of clause codes recorded as known findings of the module; if there is none, the first known
+    one.  (A known finding on one export path must not hide a new violation on the other.) *)
+Definition pick_violation (known : list Z) (fails : list (Z * Z)) : Z * Z :=
+  match filter (fun rc => negb (existsb (Z.eqb (snd rc)) known)) fails with
+  | x :: _ => x
+  | [] => match fails with x :: _ => x | [] => (-1, 0) end
+  end.
+
 (** all elements pairwise distinct *)
 Fixpoint nodupb {A} `{EqDec A} (l : list A) : bool :=
   match l with
